@@ -267,12 +267,52 @@ def run_gen_part(prop, pi, part, tier, base_seed, work, oc):
     shutil.rmtree(os.path.join(H, '.bin', KEY, 'gen_' + tag), ignore_errors=True)
 
 
+def run_fuzz_part(prop, pi, part, tier, base_seed, work, oc):
+    """Coverage-guided sweep: Go's native fuzzer over rapid.MakeFuzz(property).  It cannot be pinned to a seed;
+    the reproducible unit of anything it finds is the scenario the property itself saved (fail.json)."""
+    import re
+    t = part[tier]
+    modfile = stage()
+    outdir = os.path.join(work, part['name'])
+    os.makedirs(outdir, exist_ok=True)
+    crashers = os.path.join(H, part['pkg'], 'testdata')
+    shutil.rmtree(crashers, ignore_errors=True)
+    cmd = [GO, 'test', '-modfile=' + modfile, '-tags', 'verif', '-vet=off', '-run', '^$', '-fuzz', '^%s$' % part['test'],
+           '-fuzztime', '%dx' % t['execs'], './' + part['pkg']]
+    env = goenv(dict(VERIF_OUT=outdir, VERIF_PROP=prop, VERIF_TIER=tier))
+    timeout = t.get('timeout', 1800)
+    try:
+        p = subprocess.run(cmd, cwd=H, env=env, stdout=subprocess.PIPE, stderr=subprocess.STDOUT, text=True, errors='replace', timeout=timeout)
+        rc, out = p.returncode, p.stdout
+    except subprocess.TimeoutExpired as ex:
+        rc, out = -999, (ex.stdout or '') if isinstance(ex.stdout, str) else ''
+    shutil.rmtree(crashers, ignore_errors=True)
+    what = '%s/%s' % (prop, part['name'])
+    execs = [int(x) for x in re.findall(r'execs: (\d+)', out)]
+    inter = [int(x) for x in re.findall(r'new interesting: (\d+)', out)]
+    oc.stats.append({'evaluations': execs[-1] if execs else 0, 'nontrivial': 0,
+                     'classes': {'coverage-guided-fuzz-execs': execs[-1] if execs else 0, 'fuzz-new-interesting-inputs': inter[-1] if inter else 0},
+                     'notes': ['the coverage-guided part counts executions only; non-triviality and distinctness are measured on the rapid and enumeration parts']})
+    oc.logs.append((what, rc, out[-1500:]))
+    if rc == 0:
+        return
+    fj = os.path.join(outdir, 'fail.json')
+    if os.path.exists(fj):
+        oc.failures.append((json.load(open(fj)), what + ' [coverage-guided fuzzing]', out[-3000:]))
+    elif rc == -999:
+        oc.inconclusive.append('%s: timeout' % what)
+    else:
+        oc.inconclusive.append('%s: go test -fuzz exited %s without a recorded failing case\n%s' % (what, rc, out[-3000:]))
+
+
 def run_part(prop, pi, part, tier, base_seed, work, oc):
     t = part.get(tier)
     if not t:
         return
     if part.get('kind') == 'gen':
         return run_gen_part(prop, pi, part, tier, base_seed, work, oc)
+    if part.get('kind') == 'fuzz':
+        return run_fuzz_part(prop, pi, part, tier, base_seed, work, oc)
     binary, blog = build(part['pkg'], race=part.get('race', False))
     if binary is None:
         oc.inconclusive.append('build of harness package %s against %s failed:\n%s' % (part['pkg'], REPO, blog[-4000:]))
@@ -565,7 +605,7 @@ def setup():
     jobs = []
     for prop, cfg in PROPS.items():
         for part in cfg['parts']:
-            if part.get('kind') == 'gen':
+            if part.get('kind') in ('gen', 'fuzz'):
                 continue
             k = (part['pkg'], part.get('race', False))
             if k not in seen:
